@@ -132,6 +132,8 @@ pub enum Hold {
 #[derive(Debug, Clone)]
 pub enum HOut {
     Echo { tag: u8, n: u64 },
+    /// emitted from `poll_close` (the n-th of the handler's closing events)
+    Closing { tag: u8, n: u32 },
 }
 
 #[derive(Debug)]
@@ -160,6 +162,8 @@ pub struct ProbeCfg {
     /// initial handler settings
     pub keep_alive: bool,
     pub protocols: Vec<String>,
+    /// what `poll_close` does, in order: true = emit a Closing event, false = return Pending once
+    pub close_plan: Vec<bool>,
 }
 
 pub struct Probe {
@@ -229,6 +233,8 @@ impl Probe {
             waker: None,
             deferred_in_poll: None,
             deferred_on_event: None,
+            close_plan: c.close_plan.iter().copied().collect(),
+            close_emitted: 0,
         }
     }
 }
@@ -381,6 +387,8 @@ pub struct ProbeHandler {
     pub waker: Option<Waker>,
     pub deferred_in_poll: Option<Vec<String>>,
     pub deferred_on_event: Option<Vec<String>>,
+    pub close_plan: VecDeque<bool>,
+    pub close_emitted: u32,
 }
 
 impl ProbeHandler {
@@ -438,9 +446,19 @@ impl ConnectionHandler for ProbeHandler {
         Poll::Pending
     }
 
-    fn poll_close(&mut self, _: &mut Context<'_>) -> Poll<Option<HOut>> {
+    fn poll_close(&mut self, cx: &mut Context<'_>) -> Poll<Option<HOut>> {
         hlog(&self.log, HEv::PollClose { tag: self.tag, id: self.id, at: elapsed() });
-        Poll::Ready(None)
+        match self.close_plan.pop_front() {
+            Some(false) => {
+                cx.waker().wake_by_ref();
+                Poll::Pending
+            }
+            Some(true) => {
+                self.close_emitted += 1;
+                Poll::Ready(Some(HOut::Closing { tag: self.tag, n: self.close_emitted }))
+            }
+            None => Poll::Ready(None),
+        }
     }
 
     fn on_behaviour_event(&mut self, cmd: HCmd) {
